@@ -232,7 +232,6 @@ OCT [0-7]
 }
 
 <STRING_EMBEDDED>"%)" {
-  yylval->f->in_string = true;
   if (yylval->f->level == 0)
     {
       yylval->f->t.push_child (parse_subquery (yylval->f->yank_str ()));
@@ -240,6 +239,8 @@ OCT [0-7]
     }
   else
     {
+      // This closes an embedded expression of a nested string literal.
+      yylval->f->in_string = true;
       --yylval->f->level;
       yylval->f->str += "%)";
     }
